@@ -150,7 +150,7 @@ def run(ck: Check):
     thorough = ck.tier == "thorough"
     ck.rule(
         "non-negative streams with one to three mean shifts / constants / noise / cancellation-prone magnitudes, m in {1,2,3,5} (and 16/32 with clock 1: single-value drops), clock in {1,2,4,8,32} (long runs followed past the first cut), "
-        "runs continue after detections; a third of the histories contain one or two reset() calls in mid-stream (the window must be empty after it and exact again afterwards); after EVERY update the implementation's window is recomputed from the raw stream; non-trivial = the window shrank at least once"
+        "large min_num_instances with a cut leaving a narrower window and further level changes while it regrows; runs continue after detections; a third of the histories contain one or two reset() calls in mid-stream (the window must be empty after it and exact again afterwards); after EVERY update the implementation's window is recomputed from the raw stream; non-trivial = the window shrank at least once"
     )
     cases, impl = [], []
     import glob, json, os
@@ -187,6 +187,21 @@ def run(ck: Check):
                 n = rng.choice([400, 640])
                 a1, a2 = sorted(rng.sample(range(n // 5, n - 40), 2))
                 xs = [abs(rng.gauss(0.2 if (i < a1 or i >= a2) else 0.9, 0.05)) for i in range(n)]
+            elif r < 0.36:
+                # a large min_num_instances: a first genuine cut leaves a window narrower than it; the level keeps
+                # moving while the window regrows, and no check is due until width exceeds min_num_instances again
+                cfg["min_num_instances"] = rng.choice([40, 80, 150])
+                cfg["clock"] = rng.choice([1, 2, 4, 8])
+                cfg["m"] = rng.choice([2, 3, 5])
+                cfg["min_window_size"] = rng.choice([1, 2, 5])
+                cfg["delta"] = rng.choice([0.002, 0.05, 0.5])
+                n0_ = cfg["min_num_instances"] + rng.choice([8, 24, 60])
+                xs = [abs(rng.gauss(0.2, 0.03)) for _ in range(n0_)]
+                lvl = 0.9
+                while len(xs) < n0_ + rng.choice([60, 110]):
+                    xs += [abs(rng.gauss(lvl, 0.03)) for _ in range(rng.choice([12, 20, 30]))]
+                    lvl = rng.choice([0.1, 0.5, 0.9, 1.4])
+                n = len(xs)
             if cfg["m"] == 1 and rng.random() < 0.5:
                 # binary-counter shaped windows: staircase stream checked once at an odd length
                 cfg["clock"] = rng.choice([23, 39, 47, 55, 87, 95])
